@@ -53,8 +53,17 @@ def _end_of_thing(masked, i):
     depth = 0
     k = i
     opened_brace = False
+    typed = re.match(r"\w+\s*:(?!:)", masked[i:i + 80]) is not None   # field / parameter: `<..>` are generics
+    angle = 0
     while k < n:
         c = masked[k]
+        if typed and c == "<":
+            angle += 1
+        elif typed and c == ">" and angle > 0 and masked[k - 1] != "-":
+            angle -= 1
+        elif typed and angle > 0 and c in ",;":
+            k += 1
+            continue
         if c in "([{":
             if c == "{" and depth == 0:
                 opened_brace = True
@@ -129,7 +138,8 @@ def drop_attrs_and_docs(text, log):
         cb = lex.match_close(masked, ob)
         attr = text[ob + 1:cb]
         keep = ""
-        if re.match(r"\s*derive\s*\(", attr) and re.search(r"\bDebug\b", attr):
+        nm = re.search(r"\b(?:struct|enum)\s+(\w+)", masked[cb:cb + 400])
+        if re.match(r"\s*derive\s*\(", attr) and re.search(r"\bDebug\b", attr) and nm and (nm.group(1).endswith("Error") or nm.group(1) == "Store"):
             keep = "\x00[derive(Debug)]"   # re-inserted below; Clone/PartialEq are re-declared with specs in the shim
         if re.match(r"\s*repr\s*\(", attr):
             keep = "\x00[" + attr.strip() + "]"
